@@ -172,6 +172,32 @@ theorem repeated_drain_changes_nothing (s : Shared) (parent : Frame) (rest : Lis
     simp [stepThread, finish, kindOf, mRet, markerCond, stDraining, stStopping]
   · simp [stepThread, finish, kindOf, mRet, markerCond, h]
 
+/-- **A drain that is not interleaved with anything** (API level): admission is closed, the status
+becomes `Draining` unless the actor is already stopping, and — if no send holds a ticket and the
+marker was not emitted before — the marker is emitted (or reported lost if the receiver is gone). -/
+theorem uninterleaved_drain (g : G) (i : Nat) (h : g.threads[i]? = some [{ pc := .run, ops := [.drain] }]) :
+    (run g (List.replicate 6 (.t i))).sh =
+      (let st := if g.sh.status < stStopping then stDraining else g.sh.status
+       if g.sh.word.count = 0 ∧ g.sh.word.marker = false then
+         if g.sh.rxOpen = true then
+           { g.sh with word := ⟨true, true, 0⟩, status := st,
+                       queue := g.sh.queue ++ [.drain], enq := g.sh.enq ++ [.drain],
+                       rets := g.sh.rets ++ [⟨.drain, 0, .ok, false, []⟩] }
+         else
+           { g.sh with word := ⟨true, true, 0⟩, status := st, markerDropped := g.sh.markerDropped + 1,
+                       rets := g.sh.rets ++ [⟨.drain, 0, .drainErr, false, []⟩] }
+       else
+         { g.sh with word := { g.sh.word with closed := true }, status := st,
+                     rets := g.sh.rets ++ [⟨.drain, 0, .ok, false, []⟩] }) := by
+  rw [run_replicate 6 h]
+  obtain ⟨sh, threads⟩ := g
+  obtain ⟨⟨wc, wm, wn⟩, status, queue, rxOpen, rxStopped, sbo, enq, deqd, handled, flushed, dex, mdrop,
+    nextId, rets⟩ := sh
+  simp only
+  by_cases h1 : status < stStopping <;> cases wm <;> cases rxOpen <;> by_cases h2 : wn = 0 <;>
+    simp [runThread, stepThread, startOp, finish, kindOf, mRet, markerCond, h1, h2]
+
+
 /-- **The run-time oracle is a theorem of the model.** `Obs.violations` — the very function the
 driver evaluates on the implementation's end-of-case observations (handled at most once and only
 if Ok, every Ok handled unless stopped, nothing admitted after the close, count 0 and closed ⇒
@@ -243,6 +269,7 @@ end C07
 #print axioms C07.drain_completes
 #print axioms C07.drained_exit_handled_everything
 #print axioms C07.repeated_drain_changes_nothing
+#print axioms C07.uninterleaved_drain
 #print axioms C07.oracle_holds_of_model
 #print axioms C07.src_status_discriminants
 #print axioms C07.src_admission_word_layout
